@@ -4,6 +4,7 @@ import (
 	"fmt"
 	"math"
 	"math/big"
+	"sort"
 	"strings"
 
 	"verifharness/ref"
@@ -143,6 +144,23 @@ func c02Run(c *Ctx) {
 				Print("a == b") + "\n" + Print("b == a") + "\n" + Print("a != b") + "\n" + Print("b != a") + "\n" + Print("a == a") + "\n" + Print("a != a") + "\n",
 				X: map[string]string{"ka": a.Kind, "kb": b.Kind}}
 			c02Judge(c, cs)
+		}
+	}
+	// 3b. the same laws for every built-in against every built-in (each is a value like any other),
+	// directly, through a variable and through an array element
+	var bis []string
+	for _, n := range B {
+		bis = append(bis, n)
+	}
+	sort.Strings(bis)
+	for _, a := range bis {
+		for _, b := range bis {
+			if !c.Mine() {
+				continue
+			}
+			c02Judge(c, &Case{Gen: "eqlaws", Src: Var("a", a) + "\n" + Var("b", "["+b+"][0]") + "\n" +
+				Print("a == b") + "\n" + Print("b == a") + "\n" + Print("a != b") + "\n" + Print("b != a") + "\n" + Print("a == a") + "\n" + Print(a+" != "+a) + "\n",
+				X: map[string]string{"ka": "builtin", "kb": "builtin", "same": fmt.Sprint(a == b)}})
 		}
 	}
 	// 4. random doubles under every arithmetic / comparison operator
@@ -393,6 +411,10 @@ func c02EqLaws(c *Ctx, cs *Case) {
 	}
 	if cs.X["ka"] != "nan" && (lines[4] != "true" || lines[5] != "false") {
 		bad("a==a is not true for a non-NaN value")
+		return
+	}
+	if cs.X["same"] == "true" && lines[0] != "true" {
+		bad("one and the same value reached by two routes is not equal to itself")
 		return
 	}
 	if cs.X["ka"] == "nan" && (lines[4] != "false" || lines[5] != "true") {
